@@ -84,7 +84,8 @@ def items(tier, seed):
         else:
             # partition by the first character: 6 work items
             for k in range(len(PARTS)):
-                out.append({'h': 'prose', 'N': n, 'part': k, 'cost': 10 ** n, 'budget': 400})
+                out.append({'h': 'prose', 'N': n, 'part': k, 'cost': 10 ** n,
+                            'budget': 400 if n == 3 else 2400})
     na = 3 if tier == 'quick' else 4
     for first in range(len(ATOMS)):
         out.append({'h': 'atoms', 'first': first, 'n': na, 'cost': 20})
